@@ -53,6 +53,73 @@ def to_limbs(x):
     return out
 
 
+# ------------------------------------------------------------------ numbers of different Python kinds (kind NSum)
+NW = 2 ** 27
+NUM_TYPES = {"int": int, "float": float, "frac": Fraction}
+
+
+def num_value(n):
+    """exact value of a number [hi, lo, nk] of the spec (counted in halves)"""
+    return Fraction(n["hi"] * NW + n["lo"], 2)
+
+
+def py_num(n):
+    """the Python number of that kind"""
+    fr = num_value(n)
+    if n["nk"] == "int":
+        if fr.denominator != 1:
+            raise ValueError("not an int: %r" % (n,))
+        return int(fr)
+    if n["nk"] == "float":
+        x = float(fr)
+        if Fraction(x) != fr:
+            raise ValueError("not a double: %r" % (n,))
+        return x
+    return fr
+
+
+def enc_num(x):
+    """a Python number -> [hi, lo, nk], or None when it is outside the domain of the spec"""
+    nk = {int: "int", float: "float", Fraction: "frac"}.get(type(x))
+    if nk is None or (nk == "float" and not math.isfinite(x)):
+        return None
+    k = Fraction(x) * 2
+    if k.denominator != 1 or k < 0 or k.numerator >= 2 ** 57:
+        return None
+    return {"hi": k.numerator // NW, "lo": k.numerator % NW, "nk": nk}
+
+
+def num_mismatch(exp, got):
+    """the observed number must be of the Python kind and of the exact value the model gives; a float value is
+    judged only where both readings of "Python's sum" agree (the caller passes exp["decided"] = False otherwise)"""
+    if type(got) is not NUM_TYPES[exp["nk"]]:
+        return "number-kind"
+    return None if Fraction(got) == num_value(exp) else "data"
+
+
+def num_undecided(kind, h, j):
+    """the compute at index j of history h yields a float sum on which the two readings of "Python's sum" (built-in
+    sum(), compensated since Python 3.12, and left-to-right addition, the model) differ: its value is not judged"""
+    if kind["t"] != "NSum":
+        return False
+    fills = []
+    for o in h[:j]:
+        if o["op"] == "f":
+            fills.append(py_num(o["x"]["d"]))
+        elif o["op"] == "r":
+            fills = []
+    return not sums_agree(fills, 0)
+
+
+def type_skeleton(x, depth=0):
+    """the Python types inside a yielded datum (3 == 3.0 == Fraction(3), but they are observably different)"""
+    if isinstance(x, (tuple, list)) and depth < 4:
+        return [type(x).__name__] + [type_skeleton(y, depth + 1) for y in x]
+    if isinstance(x, dict) and depth < 4:
+        return dict((str(k), type_skeleton(v, depth + 1)) for k, v in x.items())
+    return type(x).__name__
+
+
 def is_float_kind(kind):
     return kind["t"] == "DSum" or (kind["t"] == "Mean" and kind["inner"] == "DSum")
 
@@ -68,6 +135,8 @@ def _label(kind):
         return "Count[%s,start=%d]" % (kind["name"], kind["start"])
     if t == "Sum":
         return "Sum[start=%d]" % kind["start"]
+    if t == "NSum":
+        return "Sum[numeric-kinds]"
     if t == "DSum":
         return "DSum" if not kind.get("dstart") else "DSum[start]"
     if t == "Mean":
@@ -165,6 +234,8 @@ def py_data(kind, d):
     t = kind["t"]
     if is_float_kind(kind):
         return limbs_float(d)
+    if t == "NSum":
+        return py_num(d)
     if kind.get("opt") == "half":
         return d / 2.0
     if kind.get("opt") == "odd":
@@ -191,7 +262,10 @@ def build(kind):
     if t == "Count":
         return lena.flow.Count(kind["name"], count=kind["start"])
     if t == "Sum":
-        return lena.math.Sum(kind["start"] / 2.0 if kind.get("opt") == "half" else kind["start"])
+        # (a start of 0 is the int 0 of Sum(): what reset() is documented to install)
+        return lena.math.Sum(kind["start"] / 2.0 if kind.get("opt") == "half" and kind["start"] else kind["start"])
+    if t == "NSum":
+        return lena.math.Sum()
     if t == "DSum":
         if kind.get("dstart"):
             start = limbs_value(kind["dstart"])
@@ -320,7 +394,7 @@ def snap(kind, item):
             data = {"graph": True, "points": copy.deepcopy(list(data.points))}
     else:
         data = copy.deepcopy(data)
-    return {"d": data, "c": copy.deepcopy(ctx), "h": h}
+    return {"d": data, "c": copy.deepcopy(ctx), "h": h, "ty": type_skeleton(data)}
 
 
 def observe(kind, el):
@@ -372,6 +446,45 @@ def run_history(kind, ops, el=None):
             except Exception as exc:   # noqa
                 raise Abort("reset:raised:" + exc_name(exc), idx)
     return obs
+
+
+# ------------------------------------------------------------------ results held by the consumer (spec/AccHeld.tla)
+def run_held(kind, ops, keep):
+    """Execute a behaviour of AccHeld.tla on a real element, holding every item that compute() yields (the objects
+    themselves, not copies).  keep[n][j] (from the model): operation n must leave the j-th held result as the
+    consumer saw it before the operation.  -> list of (index of the operation, what, detail)"""
+    el = build(kind)
+    held = []          # per compute: None (it raised) or [live items, their look (deep snapshots)]
+    bad = []
+    was_reset = False
+    for idx, o in enumerate(ops):
+        if o["op"] == "f":
+            el.fill(py_value(kind, o["x"], flip=idx % 2))
+            name = "fill-after-reset" if was_reset else "fill"
+        elif o["op"] == "c":
+            try:
+                items = list(el.compute())
+            except Exception:      # noqa  (judged by the replay of Accumulators.tla)
+                items = None
+            name = "compute-after-reset" if was_reset else "compute"
+        else:
+            try:
+                el.reset()
+            except Exception:      # noqa
+                pass
+            name = "reset"
+            was_reset = was_reset or o["op"] == "r"
+        for j, entry in enumerate(held):
+            if entry is None:
+                continue
+            look = [snap(kind, x) for x in entry[0]]
+            if keep[idx][j] and look != entry[1]:
+                bad.append((idx, "held-result-changed:by-" + name,
+                            {"yielded_by_operation": entry[2], "as_yielded": entry[1], "now": look}))
+            entry[1] = look
+        if o["op"] == "c":
+            held.append(None if items is None else [items, [snap(kind, x) for x in items], idx])
+    return bad
 
 
 # ------------------------------------------------------------------ float oracle (outside TLC, DESIGN.md section 6)
@@ -557,6 +670,8 @@ def data_mismatch(kind, exp, got):
         return None if (type(got) in (int, float) and got == exp / 2.0) else "data"
     if t in ("Count", "Sum"):
         return None if (type(got) is int and got == exp) else "data"
+    if t == "NSum":
+        return num_mismatch(exp, got)
     if t == "DSum":
         if not isinstance(got, decimal.Decimal):
             return "data-type"
@@ -676,6 +791,8 @@ def result_mismatch(kind, exp, got):
     if t == "Sum" and "total" in attrs and attrs["total"] != (out[0]["d"] / 2.0 if kind.get("opt") == "half"
                                                               else out[0]["d"]):
         return "attribute-total"
+    if t == "NSum" and "total" in attrs and num_mismatch(out[0]["d"], attrs["total"]):
+        return "attribute-total"
     if t == "DSum" and "total" in attrs and Fraction(attrs["total"]) != limbs_value(out[0]["d"]):
         return "attribute-total"
     if t == "Store" and "group" in attrs:
@@ -691,7 +808,7 @@ def public_attrs(kind, el):
     try:
         if t == "Count":
             return {"count": el.count}
-        if t in ("Sum", "DSum"):
+        if t in ("Sum", "DSum", "NSum"):
             return {"total": el.total}
         if t == "Store":
             return {"group": [enc_filled(v) for v in el.group]}
@@ -824,8 +941,23 @@ def rand_float(rnd, prev):
     return rnd.uniform(-1, 1) * 2.0 ** rnd.randint(-400, 400)
 
 
+def rand_num(rnd):
+    """a non-negative multiple of 0.5 of a random Python kind: small and big ints (beyond 2**53: not doubles),
+    floats up to 2.0**53 (additions round), Fractions; at most 2**53 + 2**20, so that 22 of them stay in the model"""
+    r = rnd.random()
+    if r < 0.3:
+        return rnd.randint(0, 10 ** 6)
+    if r < 0.45:
+        return 2 ** 53 + rnd.randint(-3, 2 ** 20)
+    if r < 0.65:
+        return rnd.randint(0, 2 ** 20) / 2.0
+    if r < 0.8:
+        return float(2 ** rnd.choice([52, 53, 53]) + 2 * rnd.randint(0, 8))
+    return Fraction(rnd.randint(0, 2 ** 20), 2)
+
+
 def rand_kind(rnd):
-    t = rnd.choice(["Count", "Sum", "DSum", "DSum", "Mean", "MeanD", "VMC", "VecSum", "VecMean", "VecList", "VecList",
+    t = rnd.choice(["Count", "Sum", "NSum", "NSum", "DSum", "DSum", "Mean", "MeanD", "VMC", "VecSum", "VecMean", "VecList", "VecList",
                     "Store", "GroupBy", "GroupBy",
                     "Hist", "Hist", "Hist2", "Graph"])
     if t == "Count":
@@ -833,6 +965,8 @@ def rand_kind(rnd):
                 "start": rnd.choice([0, 0, 3, 10])}
     if t == "Sum":
         return {"t": "Sum", "start": rnd.choice([0, 0, 7, -4])}
+    if t == "NSum":
+        return {"t": "NSum"}
     if t == "DSum":
         return {"t": "DSum", "dstart": rnd.choice([[], [], to_limbs(2.5), to_limbs(-7)])}
     if t == "Mean":
@@ -892,6 +1026,14 @@ def rand_value(rnd, kind, prev):
         x = rand_float(rnd, prev)
         prev.append(x)
         d, pd = to_limbs(x), x
+    elif t == "NSum":
+        pd = rand_num(rnd)
+        if pd >= 2 ** 50:          # few big numbers per history: the totals stay inside the model's number range
+            if prev.count("big") >= 6:
+                pd = 7
+            else:
+                prev.append("big")
+        d = enc_num(pd)
     elif t in ("VMC", "Mean"):
         d = pd = rnd.randint(-50, 50)
     elif t == "Vec":
@@ -931,6 +1073,11 @@ def enc_data(kind, got, fills):
         if type(got) is not int:
             raise Malformed("data-type")
         return got
+    if t == "NSum":
+        n = enc_num(got)
+        if n is None:
+            raise Malformed("data-type")
+        return n
     if t == "DSum":
         if not isinstance(got, decimal.Decimal) or not got.is_finite():
             raise Malformed("data-type")
